@@ -4,6 +4,7 @@ import (
 	"fmt"
 	"math"
 	"strings"
+	"unicode/utf8"
 
 	"github.com/ChrisTrenkamp/xsel/node"
 	"github.com/ChrisTrenkamp/xsel/store"
@@ -277,53 +278,65 @@ func substring(context Context, args ...Result) (Result, error) {
 		return nil, errBadArgs
 	}
 
-	str := args[0].String()
-	begin := getRound(args[1].Number())
+	// Positions count characters, not bytes.  The selected characters are
+	// those at positions p with round(begin) <= p < round(begin) + round(length),
+	// compared as IEEE 754 numbers (so NaN selects nothing).
+	begin := roundHalfUp(args[1].Number())
+	end := math.Inf(1)
 
-	if float64(begin-1) >= float64(len(str)) || math.IsNaN(float64(begin)) {
-		return String(""), nil
+	if len(args) == 3 {
+		end = begin + roundHalfUp(args[2].Number())
 	}
 
-	if len(args) == 2 {
-		if begin <= 1 {
-			begin = 1
+	ret := strings.Builder{}
+	pos := 0.0
+
+	for _, r := range args[0].String() {
+		pos++
+
+		if pos >= begin && pos < end {
+			ret.WriteRune(r)
 		}
-
-		return String(str[int(begin)-1:]), nil
 	}
 
-	end := getRound(args[2].Number())
-
-	if end <= 0 || math.IsNaN(float64(end)) || (math.IsInf(float64(begin), 0) && math.IsInf(float64(end), 0)) {
-		return String(""), nil
-	}
-
-	if begin <= 1 {
-		end = begin + end - 1
-		begin = 1
-	}
-
-	if float64(begin+end-1) >= float64(len(str)) {
-		end = float64(len(str)) - begin + 1
-	}
-
-	return String(str[int(begin)-1 : int(begin+end)-1]), nil
+	return String(ret.String()), nil
 }
 
 func stringLength0(context Context, args ...Result) (Result, error) {
-	return Number(len(context.Result().String())), nil
+	return Number(utf8.RuneCountInString(context.Result().String())), nil
 }
 
 func stringLength1(context Context, args ...Result) (Result, error) {
-	return Number(len(args[0].String())), nil
+	return Number(utf8.RuneCountInString(args[0].String())), nil
 }
 
 func normalizeSpace0(context Context, args ...Result) (Result, error) {
-	return String(strings.TrimSpace(context.Result().String())), nil
+	return String(normalizeSpace(context.Result().String())), nil
 }
 
 func normalizeSpace1(context Context, args ...Result) (Result, error) {
-	return String(strings.TrimSpace(args[0].String())), nil
+	return String(normalizeSpace(args[0].String())), nil
+}
+
+// roundHalfUp returns the integer closest to n, ties toward positive infinity.
+func roundHalfUp(n float64) float64 {
+	r := math.Floor(n)
+
+	if n-r >= 0.5 {
+		r++
+	}
+
+	return r
+}
+
+// normalizeSpace strips leading and trailing XML whitespace and replaces
+// internal sequences of it by a single space.
+func normalizeSpace(str string) string {
+	fields := strings.FieldsFunc(str, func(r rune) bool {
+		return r == ' ' || r == '\t' || r == '\r' || r == '\n'
+	})
+
+	return strings.Join(fields, " ")
 }
 
 func translate(context Context, args ...Result) (Result, error) {
@@ -332,20 +345,32 @@ func translate(context Context, args ...Result) (Result, error) {
 	}
 
 	src := args[0].String()
-	old := args[1].String()
-	new := args[2].String()
+	from := []rune(args[1].String())
+	to := []rune(args[2].String())
 
-	for i := range old {
-		r := ""
+	// Every character is mapped by its first occurrence in the second
+	// argument; characters without a counterpart in the third are removed.
+	mapping := make(map[rune]int)
 
-		if i < len(new) {
-			r = string(new[i])
+	for i, r := range from {
+		if _, ok := mapping[r]; !ok {
+			mapping[r] = i
 		}
-
-		src = strings.Replace(src, string(old[i]), r, -1)
 	}
 
-	return String(src), nil
+	ret := strings.Builder{}
+
+	for _, r := range src {
+		i, ok := mapping[r]
+
+		if !ok {
+			ret.WriteRune(r)
+		} else if i < len(to) {
+			ret.WriteRune(to[i])
+		}
+	}
+
+	return String(ret.String()), nil
 }
 
 func boolean(context Context, args ...Result) (Result, error) {
